@@ -166,3 +166,44 @@ def run(ctx):
     ctx.ob(R6, pfi.qual, "the host test is made on the url being requested", bool(tests) and all(astq.text(c.args[0]) == "url" for c in tests))
     raises = [n for n in astq.walk_fn(pfi.node) if isinstance(n, ast.Raise) and n.exc is not None and "HostChangedError" in astq.text(n.exc)]
     ctx.ob(R6, pfi.qual, "the refusal is HostChangedError", bool(raises))
+
+
+# ---------------------------------------------------------------------------- R7 (added after seeded change C06/empty-stripped-headers-redefaulted)
+def _run_r7(ctx):
+    R7 = ctx.rule("C06-R7", "the manager's default headers stand in only when the caller supplied none: on every path where PoolManager.urlopen hands the pool self.headers, the `headers` keyword was absent (or None) - never merely falsy, because the stripped mapping of a redirect chain may be empty and would then be replaced by the very defaults that were stripped", "E4 decisions at the pool-level call (shared resend analysis)")
+    rule, fi, outs = resend.analyse(ctx, "manager")
+    calls = [s for s in rule.sites if s.kind == "poolcall"]
+    ctx.sites(R7, len(calls), 1, "pool-level calls in PoolManager.urlopen")
+    seen = set()
+    n = 0
+    for s in calls:
+        h = s.args.get("headers")
+        if h is None or "self.headers" not in h.tags:
+            continue
+        absent = None
+        for k, v in s.st.ts.items():
+            if isinstance(k, tuple) and len(k) == 4 and k[0] == "cmp" and k[1] == repr("headers") and k[2] == "in":
+                absent = (v is False)
+        entry = [(k, v) for k, v in s.st.facts.items() if k.endswith("['headers']@entry")]
+        falsy = any(v[0] is False for _, v in entry)
+        is_none = any(v[1] is True for _, v in entry)
+        key = (absent, falsy, is_none)
+        if key in seen:
+            continue
+        seen.add(key)
+        n += 1
+        ok = absent is True or is_none
+        why = ""
+        if not ok:
+            why = ("the defaults replace a mapping the caller did supply but which is empty: after a cross-origin redirect whose headers were all credentials, the next hop starts from self.headers again and sends them to the new origin"
+                   if falsy else "the defaults replace the headers whatever the caller supplied")
+        ctx.ob(R7, fi.qual, f"defaults used with `headers` absent={absent} falsy={falsy} None={is_none}", ok, why, witness=s.st.witness(), node=s.node)
+    ctx.sites(R7, n, 1, "paths on which the defaults are used")
+
+
+_run_base06 = run
+
+
+def run(ctx):  # noqa: F811
+    _run_base06(ctx)
+    _run_r7(ctx)
